@@ -272,6 +272,37 @@ def case_world(ctx, case):
                 raise CaseViolation('get_agents_at differs from the leeway box' + (' (order)' if not extra and not missing else ''),
                                     expected=[a.id for a in expected], extra=[getattr(a, 'id', a) for a in extra], missing=[a.id for a in missing],
                                     **detail)
+        if not wrap and len(order) >= 1 and rng.random() < 0.5:
+            # the very same question again after a few changes and nothing else in between: someone leaves and someone joins (the same
+            # agent or another one), an agent is pushed against a wall by a relative move that overshoots, or pushed and pulled back
+            def box_now():
+                return [a_ for a_ in order if all(abs(Fraction(a_.components[P].xyz()[k_]) - Fraction(q[k_])) <= eff[k_] for k_ in range(3))]
+            for _ in range(rng.randint(1, 3)):
+                kind_ = rng.choice(['swap', 'swap', 'overshoot', 'there_and_back'])
+                a_ = rng.choice(order)
+                if kind_ == 'swap':
+                    env.remove_agent(a_.id)
+                    order.remove(a_)
+                    outside_ = [b_ for b_ in pool if not any(b_ is c_ for c_ in order)]
+                    b_ = rng.choice(outside_)
+                    spot_ = [rng.choice([q[k_], rnd_coord(k_)]) if in_range(k_, q[k_]) and (not grid or q[k_] == int(q[k_])) else rnd_coord(k_) for k_ in range(3)]
+                    env.add_agent(b_, *[int(v_) if grid else float(v_) for v_ in spot_])
+                    order.append(b_)
+                elif kind_ == 'overshoot':
+                    env.move(a_, *[rng.choice([-1, 1]) * (1000 if grid else 1000.0) if (ext[k_] and ext[k_] > 0 and rng.random() < 0.6) else 0 for k_ in range(3)])
+                else:
+                    d_ = [rng.randint(-2, 2) if grid else rng.randint(-16, 16) / 8 for _ in range(3)]
+                    before_ = a_.components[P].xyz()
+                    env.move(a_, *d_)
+                    env.move_to(a_, *before_) if all(in_range(k_, before_[k_]) for k_ in range(3)) else None
+            again = env.get_agents_at(q[0], q[1], q[2], L, AL[0], AL[1], AL[2])
+            ctx.count('identical_queries_repeated_after_a_few_changes')
+            want_ = box_now()
+            if not same_objects(again, want_):
+                raise CaseViolation('the same positional query, asked again after a few agents had left / joined / been pushed against a wall, differs '
+                                    'from the leeway box', expected=[a_.id for a_ in want_], observed=[getattr(a_, 'id', a_) for a_ in again],
+                                    world=(kind, ext, wrap), query=q, leeway=L, axis_leeways=AL,
+                                    population=[(a_.id, a_.components[P].xyz()) for a_ in order])
         # the answer belongs to the caller, who may do with it what it likes
         junk = rng.random()
         if junk < 0.3:
